@@ -6,7 +6,7 @@
 From Coq Require Import List NArith ZArith Bool Arith.
 From RareV Require Import Base.Hex Base.Res Model.Dissect Model.IntPool Model.DissectRun.
 From RareV Require Import Proofs.DissectSearch Proofs.DissectFind Proofs.DissectCase
-  Proofs.DissectCompile Proofs.DissectCompileSpec Proofs.IntPoolProof Proofs.DissectRunProof Proofs.DissectSpan.
+  Proofs.DissectCompile Proofs.DissectCompileSpec Proofs.IntPoolProof Proofs.DissectRunProof Proofs.DissectSpan Proofs.DissectSched.
 Import ListNotations.
 
 (* ---- the search primitive (strings.Index / indexIgnoreCase) ---- *)
@@ -158,6 +158,21 @@ Theorem C12_instance_stable : forall d lines,
     map (fun x => option_map (read (p_heap p')) (fst x)) xs = map snd xs.
 Proof. exact instance_stable_proof. Qed.
 Print Assumptions C12_instance_stable.
+
+(* factory-level contract: instances created from one compiled pattern share no mutable state.
+   For any number w of instances (each with its own pool) and ANY interleaving of calls
+   (instance, line) over them, no call panics, every call returns the offsets of its own line alone
+   (independent of every other call on this or any other instance), and the returned slice still
+   reads the same through its instance's heap after the whole schedule *)
+Theorem C12_instances_independent : forall d w sched,
+  d_names d = map t_name (nonskip (d_tokens d)) -> Forall (fun c => fst c < w) sched ->
+  exists xs ps, run_sched d (instances d w) sched = Ok (xs, ps) /\
+    Forall2 (fun c x =>
+               fst (fst x) = fst c /\
+               snd x = option_map (map Z.of_nat) (find d (snd c)) /\
+               option_map (read (p_heap (nth (fst c) ps dflt))) (snd (fst x)) = snd x) sched xs.
+Proof. exact instances_independent_proof. Qed.
+Print Assumptions C12_instances_independent.
 
 (* in observable form: the model that simulates the pool (results at return, results re-read at the
    end) equals the pool-free closed form in which both are the offsets computed by find *)
